@@ -576,6 +576,7 @@ func (tr *FnTr) checkPost(fc *FuncContract, fn *ssa.Function, results []Val, kin
 	for i, c := range cl {
 		g := ctx.goal(c.E)
 		tr.vc.Oblige(kind, labelOr(c.Label, i+1), Implies(tr.st.Reach, g), c.Pos)
+		tr.vc.ObligeIdentities(kind, labelOr(c.Label, i+1), c.Pos)
 	}
 	if exc {
 		for i, c := range fc.Panics {
